@@ -50,12 +50,13 @@ def ob_from(oid, fn, lines, status, detail, backend="z3"):
 # ---------------------------------------------------------------------------------------------------
 # lemmas proved by the other property modules: re-run on the current tree (their stand-ins are skipped)
 
-def import_lemmas(rep, tier):
+def import_lemmas(rep, tier, plan=None, pid=None):
     obs = []
-    plan = [("L1", "C06", lambda o: True, "lines round trip and folding"),
-            ("L2", "C05", lambda o: True, "content line split / join"),
-            ("L3", "C03", lambda o: o.backend != "fin" or True, "typed value codecs"),
-            ("L4", "C10", lambda o: True, "serialisation order")]
+    pid = pid or PID
+    plan = plan or [("L1", "C06", lambda o: True, "lines round trip and folding"),
+                    ("L2", "C05", lambda o: True, "content line split / join"),
+                    ("L3", "C03", lambda o: o.backend != "fin" or True, "typed value codecs"),
+                    ("L4", "C10", lambda o: True, "serialisation order")]
     for tag, modname, keep, what in plan:
         t0 = time.time()
         mod = importlib.import_module(f"props.{modname}")
@@ -92,7 +93,7 @@ def import_lemmas(rep, tier):
                 bnd.run = saved
             if saved_b is not None:
                 mod.bounded = saved_b
-        ob = Obligation(f"{PID}.{tag}.lemma_{modname}_holds_on_this_tree", f"(functions under contract in {modname})", "z3+fstc", status, detail=detail,
+        ob = Obligation(f"{pid}.{tag}.lemma_{modname}_holds_on_this_tree", f"(functions under contract in {modname})", "z3+fstc", status, detail=detail,
                         seconds=time.time() - t0)
         obs.append(ob)
         for f in sub.functions:
